@@ -32,6 +32,8 @@ CHUNK = 2
 KINDS = ["shared", "crossbar", "shared", "crossbar", "p2p", "arbiter", "decoder"]
 
 
+SEEDED_SCALE = {"quick": 6, "thorough": 10}      # multiplies the run counts of the sampled families in plan()
+
 def plan(tier):
     return [("axil", 120 if tier == "quick" else 6000)]
 
